@@ -22,3 +22,6 @@ open GlueVerif.C15
 #print axioms permuted_axes_wrong
 #print axioms triangular_inverse_wrong
 #print axioms chain_from_needed_wrong
+#print axioms world_eq_direct_history
+#print axioms history_read_current_state
+#print axioms cached_grid_survives_shape_change
